@@ -40,7 +40,7 @@ RULE = ('random class diagrams as for C14, every second one with XML-special / n
         '0-6); on Simple_Model.xtuml every single edit at every site (rename each attribute, retype each base '
         'attribute to each data type, add a base / derived / referential / unsupported attribute to each class, add an '
         'enumerator, every permutation of the enumerators, add a user type of each base in each container, move each '
-        'class to each container) and random scripts; plus the WRITTEN FILE character by character: for every third diagram (rows in modeled order, so the document order is defined) the text written by main equals the specified text (one element per line, four blanks per level, attribute order, the four replacements of minidom). Non-trivial: the component contains a class with a declared '
+        'class to each container) and random scripts; plus same-named data types in different scopes (a type of the component named like a global one, of another kind) with edits on the inner one, and classes whose attributes are only partly on the R103 chain; plus the WRITTEN FILE character by character: for every third diagram (rows in modeled order, so the document order is defined) the text written by main equals the specified text (one element per line, four blanks per level, attribute order, the four replacements of minidom). Non-trivial: the component contains a class with a declared '
         'attribute and, if there are edits, they change the tree; distinct = distinct case content')
 EXHAUSTIVE = {'quick': False, 'thorough': False}
 ASSUMPTIONS = [
@@ -140,6 +140,36 @@ def generate(ctx):
                 any(bare(c) and E.py_contained(dd, k['id'], c['parent']) for c in dd['classes'])]
         yield {'src': 'synth', 'diagram': dd, 'comp': r.choice(good or comps), 'edits': _xscript(r, dd, r.randint(0, 2)),
                'entry': 'build', 'perm': r.randint(1, 1 << 30)}
+    # ---- two data types with the same name in scope (a component's type named like a global one), followed by edits on
+    #      the inner one; classes whose attributes are only partly on the R103 chain.  The edit theorems assume unique type
+    #      names and fully chained classes, so for these cases only the trees are compared (`nospec`), not the predicted
+    #      declaration edit.
+    for j in range(ctx.pick(30, 240)):
+        r = rng.fork('scoped', j)
+        dd = E.gen_diagram(r, max_classes=4, empty_enum=True, dup_type_names=(j % 2 == 0), loose_attrs=(j % 3 != 0))
+        comps = [k for k in dd['containers'] if k['comp']]
+        if not comps:
+            continue
+        twins = [t for t in dd['dts'] if sum(1 for u in dd['dts'] if u['name'] == t['name']) > 1 and not t.get('predef')]
+        inside = [k['name'] for k in comps if any(E.py_contained(dd, k['id'], t['parent']) for t in twins)]
+        loose_cls = {x[0] for x in dd.get('loose', [])}
+        inside += [k['name'] for k in comps if any(c['id'] in loose_cls and E.py_contained(dd, k['id'], c['parent'])
+                                                   for c in dd['classes'])]
+        name = r.choice(inside or [k['name'] for k in comps])
+        edits = []
+        cur = dd
+        for t in twins:
+            if t['kind'][0] == 'enum' and r.random() < 0.8:
+                e = ['add-enum', t['id'], 'Added_%d' % r.randint(1, 99), _fresh_id()] if r.random() < 0.5 else \
+                    ['perm-enums', t['id'], list(reversed(range(len(t['kind']) - 1)))]
+                edits.append(e)
+                cur = E.py_apply_xedit(cur, e)
+        edits += _xscript(r, cur, r.randint(0, 2))
+        yield {'src': 'synth', 'diagram': dd, 'comp': name, 'edits': edits, 'entry': 'build',
+               'perm': r.randint(1, 1 << 30), 'nospec': True, 'audit': j % 5 == 0}
+        if j % 4 == 0:
+            yield {'src': 'synth', 'diagram': dd, 'comp': name, 'edits': [], 'entry': 'main',
+                   'perm': r.randint(1, 1 << 30), 'nospec': True}
     for edits in _real_sites(d):
         i += 1
         yield {'src': 'real', 'model': 'simple', 'comp': 'Comp', 'edits': edits, 'entry': 'build',
@@ -360,6 +390,8 @@ def model_obs(case, ans):
     if case['entry'] == 'text':
         return ['text', ans[1]]
     t0, t1, t2 = (E.canon_xml(E.tree_of_sexp(x)) for x in ans[1:4])
+    if case.get('nospec'):
+        return ['ok', t0, t1]           # outside the hypotheses of the edit theorems: the trees only
     if t1 != t2:
         return ['model-inconsistent', t1, t2]
     return ['ok', t0, t1]
